@@ -2,13 +2,20 @@
 """Print the prompt for an independent *harmless refactoring* agent (controls: the checks must stay quiet) for
 property <Id> and create its scratch worktree /tmp/ref-<Id>."""
 import json, sys, subprocess
-pid = sys.argv[1]; n = sys.argv[2] if len(sys.argv) > 2 else "3"
+pid = sys.argv[1]; n = sys.argv[2] if len(sys.argv) > 2 else "3"; rnd = sys.argv[3] if len(sys.argv) > 3 else ""
 p = [json.loads(l) for l in open("/verif/properties.jsonl") if json.loads(l)["id"] == pid][0]
-wt = "/tmp/ref-%s" % pid
+wt = "/tmp/ref%s-%s" % (rnd, pid)
 subprocess.run(["git", "-C", "/repo", "worktree", "remove", "--force", wt], capture_output=True)
-subprocess.run(["git", "-C", "/repo", "branch", "-D", "ref/" + pid], capture_output=True)
-r = subprocess.run(["git", "-C", "/repo", "worktree", "add", "-q", "-b", "ref/" + pid, wt, "main"], capture_output=True, text=True)
+subprocess.run(["git", "-C", "/repo", "branch", "-D", "ref%s/" % rnd + pid], capture_output=True)
+r = subprocess.run(["git", "-C", "/repo", "worktree", "add", "-q", "-b", "ref%s/" % rnd + pid, wt, "main"], capture_output=True, text=True)
 assert r.returncode == 0, r.stderr
+import glob
+tried = []
+for mp in sorted(glob.glob("/verif/seeded/%s/refactor-*/meta.json" % pid)):
+    try:
+        mm = json.load(open(mp)); tried.append("  - %s: %s" % (mm.get("site", ""), str(mm.get("summary", ""))[:160].replace("\n", " ")))
+    except Exception: pass
+tried_txt = ("\nHarmless changes of this kind have ALREADY been tried by others; do not repeat them or close variants — pick other sites, other functions among the mechanisms, and other kinds of refactoring:\n" + "\n".join(tried) + "\n") if tried else ""
 mech = "\n".join("  - %s (%s)" % (m.get("name"), m.get("where")) for m in p["anchors"]["mechanism"])
 print(f"""You are helping evaluate a verification tool for false alarms by writing realistic HARMLESS changes. You have a scratch git worktree of the Python project whad-client at {wt} (a scratch branch). Work ONLY inside {wt} and scratch files under {wt}-scratch/. Do not look at or touch /verif or /repo. Do not use `git stash`. Run Python with `cd {wt} && /venv/bin/python …` (cwd comes first on sys.path, so the worktree's whad package is used). A harmless conda warning line is printed by every command; ignore it.
 
@@ -20,6 +27,7 @@ Code meant to make it hold:
 {mech}
 Observe at: {'; '.join(p['anchors'].get('observe_at') or [])}
 
+{tried_txt}
 Task: produce {n} different, independent changes to the source (each a separate patch against the unmodified worktree), made AT OR NEAR the code listed above, of the kind a maintainer does every week and that provably do NOT change the behaviour of that code for ANY input, state or schedule — so the property still holds exactly as before: e.g. rename local variables or a private helper, extract a few lines into a helper function or inline one, turn a loop into a comprehension or the reverse, reorder statements that are independent, replace an if/elif chain by an equivalent early-return form, replace `a == x or a == y` by `a in (x, y)`, introduce a named constant for a literal, add type hints / docstrings / debug logging, switch string formatting style, hoist an invariant computation out of a loop, replace `struct.pack` calls by equivalent `int.to_bytes` or the reverse, split or merge a function's branches. Each change should touch 5–40 lines and be a genuine semantic no-op: same return values, same exceptions (type and point), same messages sent in the same order, same side effects on the objects involved, same locking/ordering of shared-state accesses. Vary the kind of refactoring and the site across the mechanisms listed above. Do NOT make any change that alters behaviour even in a corner case; if in doubt choose something else.
 
 For each change k write into {wt}-scratch/r<k>/: `patch.diff` (output of `git diff` with only that change applied) and `meta.json` {{"property": "{pid}", "expected": "pass", "summary": …, "why_equivalent": "the argument that behaviour is unchanged for all inputs", "site": "file:function"}}. Verify each yourself: with the patch applied `cd {wt} && /venv/bin/python -m pytest -q -p no:cacheprovider --timeout=900 2>&1 | tail -3` shows the same result as without the change (exactly one pre-existing failure, tests/domain/ble/profile/test_clues.py::test_clues_data; 973 passed), and a few spot checks of the refactored function against the original on boundary inputs agree. Leave the worktree clean (`git checkout -- .`) at the end. Final answer: a short list of the changes and what you verified.""")
